@@ -163,8 +163,8 @@ def run(plan: dict[str, Any]) -> dict[str, Any]:
             elif k == "gw_restart":
                 gw.restart()
             elif k == "srv_frame":
-                if gw.channels:
-                    cid = sorted(gw.channels)[-1]
+                if gw.last_cid in gw.channels:
+                    cid = gw.last_cid
                     gw.send_request(cid, W.cemi_ldata(W.L_DATA_IND, 0x1101, GA, tpci_apci=W.gv_write_small(1)))
 
         tlast = 0.0
